@@ -150,6 +150,31 @@ qsize(void)
 }
 
 static IMB_STATUS pre_status[2 * IMB_MAX_BURST_SIZE];
+/* C14: caller-owned descriptor fields must be identical when the call returns */
+static IMB_JOB pre_jobs[2 * IMB_MAX_BURST_SIZE];
+static void
+snap(void)
+{
+        for (int k = 0; k < N; k++)
+                pre_jobs[k] = st.jobs[k];
+}
+#define SAMEF(f) assert(pre_jobs[k].f == st.jobs[k].f)
+static void
+check_desc(void)
+{
+        for (int k = 0; k < N; k++) {
+                SAMEF(enc_keys); SAMEF(dec_keys); SAMEF(key_len_in_bytes); SAMEF(src); SAMEF(dst);
+                SAMEF(cipher_start_src_offset_in_bytes); SAMEF(msg_len_to_cipher_in_bytes);
+                SAMEF(hash_start_src_offset_in_bytes); SAMEF(msg_len_to_hash_in_bytes); SAMEF(iv); SAMEF(iv_len_in_bytes);
+                SAMEF(auth_tag_output); SAMEF(auth_tag_output_len_in_bytes); SAMEF(u.XCBC._k1_expanded); SAMEF(u.XCBC._k2);
+                SAMEF(u.XCBC._k3); SAMEF(cipher_mode); SAMEF(cipher_direction); SAMEF(hash_alg); SAMEF(chain_order);
+                SAMEF(user_data); SAMEF(user_data2); SAMEF(cipher_func); SAMEF(hash_func); SAMEF(sgl_state);
+                SAMEF(cipher_fields.CBCS.next_iv); SAMEF(suite_id[0]); SAMEF(suite_id[1]); SAMEF(session_id);
+                /* a status is only ever moved to a final value by the ring code itself */
+                assert(st.jobs[k].status == pre_jobs[k].status || st.jobs[k].status == IMB_STATUS_COMPLETED ||
+                       st.jobs[k].status == IMB_STATUS_INVALID_ARGS || st.jobs[k].status == IMB_STATUS_BEING_PROCESSED);
+        }
+}
 
 int
 main(void)
@@ -179,8 +204,10 @@ main(void)
 #if ENTRY == 1 || ENTRY == 2 /* SUBMIT_JOB / SUBMIT_JOB_NOCHECK */
         g_sub_lo = n0 / SZ; g_sub_n = 1;
 #if ENTRY == 1
+        snap();
         IMB_JOB *r = SUBMIT_JOB(&st);
 #else
+        snap();
         IMB_JOB *r = SUBMIT_JOB_NOCHECK(&st);
 #endif
         const unsigned q1 = qsize();
@@ -219,6 +246,7 @@ main(void)
                 assert(st.earliest_job == -1 && r == sub);
 
 #elif ENTRY == 3 /* FLUSH_JOB */
+        snap();
         IMB_JOB *r = FLUSH_JOB(&st);
         assert(R());
         assert((r == NULL) == (q0 == 0)); /* NULL iff empty */
@@ -234,6 +262,7 @@ main(void)
                 assert(g_complete_calls == 0 && st.earliest_job == -1);
 
 #elif ENTRY == 4 /* GET_COMPLETED_JOB */
+        snap();
         IMB_JOB *r = GET_COMPLETED_JOB(&st);
         assert(R());
         assert(st.imb_errno == 0);
@@ -248,6 +277,7 @@ main(void)
         assert(st.next_job == n0);
 
 #elif ENTRY == 5 /* GET_NEXT_JOB + QUEUE_SIZE */
+        snap();
         IMB_JOB *r = GET_NEXT_JOB(&st);
         assert(st.imb_errno == 0);
         assert(r == &st.jobs[n0 / SZ]);
@@ -261,6 +291,7 @@ main(void)
 #elif ENTRY == 6 /* GET_NEXT_BURST */
         static IMB_JOB *jobs[IMB_MAX_BURST_SIZE + 1];
         unsigned n_req = nondet_uint();
+        snap();
         uint32_t got = GET_NEXT_BURST(&st, n_req, nondet_bool() ? jobs : NULL);
         assert(st.earliest_job == e0 && st.next_job == n0);
         if (got) {
@@ -315,8 +346,10 @@ main(void)
         _Bool null_list = 0;
 #if ENTRY == 7
         null_list = nondet_bool();
+        snap();
         uint32_t ret = SUBMIT_BURST(&st, n, null_list ? NULL : jobs);
 #else
+        snap();
         uint32_t ret = SUBMIT_BURST_NOCHECK(&st, n, jobs);
 #endif
         assert(R());
@@ -361,6 +394,7 @@ main(void)
         unsigned mx = nondet_uint();
         __CPROVER_assume(mx <= (unsigned) N);
         _Bool null_list = nondet_bool();
+        snap();
         uint32_t ret = FLUSH_BURST(&st, mx, null_list ? NULL : jobs);
         assert(R());
         if (null_list) {
@@ -378,6 +412,7 @@ main(void)
 #error "ENTRY"
 #endif
 
+        check_desc();
 #ifdef WITNESS
         assert(0);
 #endif
